@@ -308,10 +308,25 @@ def run_children(prop, cfg, tier, seed, workdir, replay=None):
         p = subprocess.Popen(["bash", "-c", cmd], cwd=scratch, env=env, stdout=lf, stderr=subprocess.STDOUT, start_new_session=True)
         return dict(job=job, proc=p, log=logpath, lf=lf, tag=tag, t0=time.time())
 
+    rss_limit = float(os.environ.get("VERIF_RSS_LIMIT_GB", "8")) * (1 << 30)
+    last_scan = 0.0
     while pending or running:
         while pending and len(running) < maxpar:
             running.append(start(pending.pop(0)))
         time.sleep(0.2)
+        # memory watchdog: a child (process group) whose resident set exceeds the
+        # limit is killed; the supervisor reports it as a process death on the
+        # journalled case (an input that makes the server allocate without bound)
+        if time.time() - last_scan > 1.0:
+            last_scan = time.time()
+            usage = _rss_by_pgrp()
+            for c in running:
+                if usage.get(c["proc"].pid, 0) > rss_limit and not c.get("killed_rss"):
+                    c["killed_rss"] = usage.get(c["proc"].pid, 0)
+                    try:
+                        os.killpg(c["proc"].pid, signal.SIGKILL)
+                    except OSError:
+                        pass
         still = []
         for c in running:
             rc = c["proc"].poll()
@@ -324,6 +339,25 @@ def run_children(prop, cfg, tier, seed, workdir, replay=None):
                 children.append(c)
         running = still
     return children
+
+
+def _rss_by_pgrp():
+    """resident set size in bytes per process group (children run in their own session/group)"""
+    out = {}
+    page = os.sysconf("SC_PAGE_SIZE")
+    for d in os.listdir("/proc"):
+        if not d.isdigit():
+            continue
+        try:
+            with open("/proc/%s/stat" % d) as f:
+                st = f.read()
+            rest = st[st.rindex(")") + 2:].split()
+            pgrp = int(rest[2])
+            rss = int(rest[21]) * page
+            out[pgrp] = out.get(pgrp, 0) + rss
+        except (OSError, ValueError, IndexError):
+            continue
+    return out
 
 
 def main():
@@ -389,7 +423,13 @@ def supervise(prop, cfg, tier, seed, workdir, replay, t0, write_evidence=True):
         if res is None or not res.get("complete"):
             cls, frames = death_signature(c["log"])
             opens = journal_open_cases(jpath)
-            if c["rc"] in (124, 137) or cls == "watchdog":
+            if c.get("killed_rss"):
+                oc = opens[0] if opens else {}
+                violations.append(dict(property=prop, index=oc.get("idx", -1), sub=oc.get("sub", ""), mode=mode,
+                                       sig="%s:process-death:memory-exhaustion" % prop,
+                                       summary="child process reached %.1f GiB resident memory while executing a journalled case and was killed by the supervisor (limit VERIF_RSS_LIMIT_GB)" % (c["killed_rss"] / float(1 << 30)),
+                                       case=oc.get("case"), detail={"open_cases": [(o.get("idx"), o.get("sub")) for o in opens][:5]}))
+            elif c["rc"] in (124, 137) or cls == "watchdog":
                 inconclusive.append("child %s hit the wall-clock watchdog (rc=%s); open cases: %s" % (c["tag"], c["rc"], [(o.get("idx"), o.get("sub")) for o in opens][:3]))
                 _keep_log(c, prop)
             else:
